@@ -41,7 +41,7 @@ theorem copy_assign_fixed (ew : EWorld) (ps : List Param) (a b : Nat) (ea eb : E
 /-- the owning pointer's copy assignment succeeds when no allocation fails -/
 theorem ptr_copyAssign_ok (p o : Ptr) (h : Heap) (c : ACfg) (unit : Nat) (hnf : h.fail = none) :
     ∃ h' p', p.copyAssign h c unit o = (h', p', true) := by
-  unfold Ptr.copyAssign Heap.allocate
+  unfold Ptr.copyAssign Ptr.reallocate Heap.allocate
   simp only [hnf]
   repeat' (first | exact ⟨_, _, rfl⟩ | split)
 
